@@ -38,6 +38,13 @@ PY_LOCAL = [
     "def scale_{n}(x):\n    return x * 4242\n",
     "def show_{n}(x):\n    print(x)\n    return x\n",
     "def deep_{n}(a, b, c):\n    if a:\n        for i in b:\n            while c:\n                if i:\n                    with a:\n                        c = 0\n    return c\n",
+    # content AT the per-language thresholds of the generated configs: nesting ladder (depths 2, 3, 4), a class with 3 and one
+    # with 4 methods, numbers that only some language blocks allow
+    "def two_{n}(a):\n    if a:\n        a = 0\n    return a\n\n\ndef three_{n}(a, b):\n    if a:\n        for i in b:\n            a = i\n    return a\n\n\n"
+    "def four_{n}(a, b):\n    if a:\n        for i in b:\n            while i:\n                i = 0\n    return a\n",
+    "class Tri{n}:\n    def __init__(self):\n        self.v = 0\n\n    def inc(self):\n        self.v += 1\n\n    def dec(self):\n        self.v -= 1\n\n\n"
+    "class Quad{n}:\n    def __init__(self):\n        self.v = 0\n\n    def inc(self):\n        self.v += 1\n\n    def dec(self):\n        self.v -= 1\n\n    def zero(self):\n        self.v = 0\n",
+    "def rate_{n}(x):\n    return x * 4343 + 77\n",
 ]
 TS_BODIES = [
     "function compute{n}(items: number[], factor: number): number {{\n  let total = 0;\n  for (const item of items) {{\n    if (item > factor) {{\n"
@@ -50,7 +57,30 @@ TS_STRINGLY = [
     "function pick{n}(env: string): number {{\n  if (env === \"prod\") {{\n    return 1;\n  }}\n  if (env === \"stage\") {{\n    return 2;\n  }}\n  return 0;\n}}\n",
     "function call{n}(conn: any): void {{\n  conn.setMode(\"fast\");\n  conn.setMode(\"slow\");\n}}\n",
 ]
-TS_LOCAL = ["function scale{n}(x: number): number {{\n  return x * 4242;\n}}\n", "function show{n}(x: number): void {{\n  console.log(x);\n}}\n"]
+TS_LOCAL = ["function scale{n}(x: number): number {{\n  return x * 4242;\n}}\n", "function show{n}(x: number): void {{\n  console.log(x);\n}}\n",
+            "function two{n}(a: number): number {{\n  if (a) {{\n    a = 0;\n  }}\n  return a;\n}}\n\nfunction three{n}(a: number, b: number[]): number {{\n  if (a) {{\n    for (const i of b) {{\n      a = i;\n    }}\n  }}\n  return a;\n}}\n\n"
+            "function four{n}(a: number, b: number[]): number {{\n  if (a) {{\n    for (let i of b) {{\n      while (i) {{\n        i = 0;\n      }}\n    }}\n  }}\n  return a;\n}}\n",
+            "class Tri{n} {{\n  v = 0;\n  inc(): void {{\n    this.v += 1;\n  }}\n  dec(): void {{\n    this.v -= 1;\n  }}\n  zero(): void {{\n    this.v = 0;\n  }}\n}}\n\n"
+            "class Quad{n} {{\n  v = 0;\n  inc(): void {{\n    this.v += 1;\n  }}\n  dec(): void {{\n    this.v -= 1;\n  }}\n  zero(): void {{\n    this.v = 0;\n  }}\n  one(): void {{\n    this.v = 1;\n  }}\n}}\n",
+            "function rate{n}(x: number): number {{\n  return x * 4343 + 77;\n}}\n"]
+RS_LADDER = ("fn two_{n}(a: i32) -> i32 {{\n    let mut x = a;\n    if a > 0 {{\n        x = 0;\n    }}\n    x\n}}\n\nfn three_{n}(a: i32, b: Vec<i32>) -> i32 {{\n    let mut x = a;\n    if a > 0 {{\n        for i in b {{\n            x = i;\n        }}\n    }}\n    x\n}}\n\n"
+             "fn four_{n}(a: i32, b: Vec<i32>) -> i32 {{\n    let mut x = a;\n    if a > 0 {{\n        for i in b {{\n            while x > i {{\n                x = 0;\n            }}\n        }}\n    }}\n    x\n}}\n")
+
+
+def language_blocks(r) -> dict:
+    """per-language override sections, different from the top-level value and from each other, for the linters that document
+    language blocks; the L snippets above sit exactly at these thresholds, so the verdict on the same construct differs by language"""
+    d = r.sample([1, 2, 3, 5], 4)
+    m = r.sample([1, 2, 3, 4], 3)
+    extra = r.sample([[4242], [4343], [77], [4242, 77]], 3)
+    base = [-1, 0, 1, 2, 3, 4, 5, 10, 100, 1000]
+    return {
+        "nesting": {"max_nesting_depth": 4, "python": {"max_nesting_depth": d[0]}, "typescript": {"max_nesting_depth": d[1]},
+                    "javascript": {"max_nesting_depth": d[2]}, "rust": {"max_nesting_depth": d[3]}},
+        "srp": {"max_methods": 7, "python": {"max_methods": m[0]}, "typescript": {"max_methods": m[1]}, "javascript": {"max_methods": m[2]}},
+        "magic-numbers": {"allowed_numbers": base, "python": {"allowed_numbers": base + extra[0]},
+                          "typescript": {"allowed_numbers": base + extra[1]}, "javascript": {"allowed_numbers": base + extra[2]}},
+    }
 
 # snippets that INTERACT BY NAME across files: the same identifier is bound to different things in different files
 # (module aliases, accumulators that are strings here and numbers there, same class / function names).  A rule that
@@ -153,6 +183,8 @@ def gen_items(r, path: str, tag: str, rich: float = 0.7) -> list:
     docs = doc_examples()[lang]
     if lang == "rs":
         items = [["X", r.choice(docs)[1], tag] for _ in range(r.randint(1, 2))] if docs else []
+        if r.random() < 0.6:
+            items.append(["X", RS_LADDER.format(n=tag), tag])
         return items or [["X", "fn only_" + tag + "() -> i32 {\n    1\n}\n", tag]]
     kinds = KINDS_TS if lang == "ts" else KINDS_PY
     items = []
@@ -161,7 +193,7 @@ def gen_items(r, path: str, tag: str, rich: float = 0.7) -> list:
     for k in ("C", "B", "S", "L", "N"):
         pool = kinds[k]
         for i in range(len(pool)):
-            p = {"C": 0.45, "B": 0.5, "S": 0.4, "L": 0.25, "N": 0.22}[k] * (rich / 0.7)
+            p = {"C": 0.45, "B": 0.5, "S": 0.4, "L": 0.3, "N": 0.22}[k] * (rich / 0.7)
             if r.random() < p:
                 items.append([k, i, tag])
                 if k == "B" and r.random() < 0.2:
@@ -195,6 +227,11 @@ def gen_project(r, n_files=(3, 8), with_skips=True) -> dict:
               "stringly-typed": {"enabled": True}}
     if r.random() < 0.15:
         config["dry"]["detect_duplicate_constants"] = False
+    if r.random() < 0.75:
+        config.update(language_blocks(r))
+        if r.random() < 0.5:
+            config["dry"]["python"] = {"min_occurrences": r.choice([2, 3])}
+            config["dry"]["typescript"] = {"min_occurrences": r.choice([2, 3])}
     ignore = ["gen/"] if any(p.startswith("gen/") for p in paths) or r.random() < 0.3 else []
     spare = [p for p in PATH_POOL_PY + PATH_POOL_TS + PATH_POOL_RS if p not in paths]
     r.shuffle(spare)
